@@ -16,6 +16,7 @@ fn main() {
     match which.to_lowercase().as_str() {
         "c18" => c18::main(&a),
         "c17" => c18::c17_async(&a),
+        "c19" => c18::c19_async(&a),
         other => report::machinery(&format!("unknown check {other}")),
     }
 }
